@@ -350,3 +350,35 @@ pub fn replay_in_fresh_process(path: &str, id: &str, cpu_s: u64) -> (bool, Strin
         Err(e) => (false, format!("{}", e)),
     }
 }
+
+/// Runs `sylt-sim replay <file>` as a child whose death or spinning is the thing observed.
+/// Returns ("hang" | "exit" | abort class, detail).
+pub fn run_replay_inner(path: &str, cpu_budget_s: u64) -> (String, String) {
+    let exe = std::env::current_exe().expect("current_exe");
+    let mut child = match Command::new(exe).arg("replay").arg(path).env("SYLT_SIM_REPLAY_INNER", "1").stdin(Stdio::null()).stdout(Stdio::null()).stderr(Stdio::null()).spawn() {
+        Ok(c) => c,
+        Err(e) => return ("exit".into(), format!("spawn failed: {}", e)),
+    };
+    let pid = child.id();
+    loop {
+        match child.try_wait() {
+            Ok(Some(status)) => {
+                if status.code().is_some() {
+                    return ("exit".into(), format!("{}", status));
+                }
+                let what = format!("{}", status);
+                return (abort_class(&what), format!("the process running the scenario died: {}", what));
+            }
+            Ok(None) => {}
+            Err(e) => return ("exit".into(), format!("{}", e)),
+        }
+        if let Some(t) = cpu_ticks(pid) {
+            if t > cpu_budget_s * 100 {
+                unsafe_kill(pid);
+                let _ = child.wait();
+                return ("hang".into(), format!("the scenario consumed more than {} CPU seconds and was killed", cpu_budget_s));
+            }
+        }
+        std::thread::sleep(Duration::from_millis(100));
+    }
+}
